@@ -4,6 +4,7 @@ import FteikVerif.Model.Fteik2D
 import FteikVerif.Model.Fteik3D
 import FteikVerif.Model.Interp
 import FteikVerif.Model.Ray
+import FteikVerif.Model.Mesh
 /-!
 # Line-protocol driver (Tie A)
 
@@ -140,6 +141,39 @@ def cmdShrink : StateT Toks (Except String) String := do
   let p ← popFs n; let d ← popFs n; let lo ← popFs n; let up ← popFs n
   pure s!"ok {fbits (shrink p d lo up)}"
 
+def cmdMesh2d : StateT Toks (Except String) String := do
+  let nx ← popNat; let nz ← popNat
+  let dx ← popF; let dz ← popF; let x0 ← popF; let z0 ← popF
+  let npts := (nx + 1) * (nz + 1)
+  let ncell := nx * nz
+  let pts := (List.range npts).flatMap fun k =>
+    let p := meshPoint2 nx dx dz x0 z0 k
+    [p.1, p.2.1, p.2.2]
+  -- node (iz, ix) whose datum point k carries; model cell (iz, ix) of cell c
+  let pnode := (List.range npts).flatMap fun k => [k / (nx + 1), k % (nx + 1)]
+  let cells := (List.range ncell).flatMap fun c => cellVerts2 nx c
+  let ccell := (List.range ncell).flatMap fun c => [c / nx, c % nx]
+  let ints := fun (l : List Nat) => " ".intercalate (l.map toString)
+  pure s!"ok {npts} {ncell} {outFs pts} {ints pnode} {ints cells} {ints ccell}"
+
+def cmdMesh3d : StateT Toks (Except String) String := do
+  let nx ← popNat; let ny ← popNat; let nz ← popNat
+  let dx ← popF; let dy ← popF; let dz ← popF; let x0 ← popF; let y0 ← popF; let z0 ← popF
+  let npts := (nx + 1) * (ny + 1) * (nz + 1)
+  let ncell := nx * ny * nz
+  let pts := (List.range npts).flatMap fun k =>
+    let p := meshPoint3 ny nz dx dy dz x0 y0 z0 k
+    [p.1, p.2.1, p.2.2]
+  let pnode := (List.range npts).flatMap fun k =>
+    let n := pointNode3 ny nz k
+    [n.2.2, n.1, n.2.1]
+  let cells := (List.range ncell).flatMap fun c => cellVerts3 ny nz c
+  let ccell := (List.range ncell).flatMap fun c =>
+    let n := cellOf3 ny nz c
+    [n.2.2, n.1, n.2.1]
+  let ints := fun (l : List Nat) => " ".intercalate (l.map toString)
+  pure s!"ok {npts} {ncell} {outFs pts} {ints pnode} {ints cells} {ints ccell}"
+
 def handle (line : String) : String :=
   let toks := (line.splitOn " ").filter (· ≠ "")
   match toks with
@@ -159,6 +193,8 @@ def handle (line : String) : String :=
     | "ray2d" => run cmdRay2d
     | "ray3d" => run cmdRay3d
     | "shrink" => run cmdShrink
+    | "mesh2d" => run cmdMesh2d
+    | "mesh3d" => run cmdMesh3d
     | _ => s!"bad command {c}"
 
 partial def loop (h : IO.FS.Stream) (out : IO.FS.Stream) : IO Unit := do
